@@ -1,4 +1,5 @@
-(* SeqProofs.v — proofs about SeqModels.v (property C04). *)
+(* SeqProofs.v — proofs about SeqModels.v (property C04): capacity rules, memory helpers,
+   Array and List refine the abstract sequence.  (Sort: SortProofs.v, Tuple: SeqTupleProofs.v.) *)
 From Coq Require Import List Arith Bool ZArith Lia Permutation Sorted.
 From CelloV Require Import Generated SeqModels.
 Import ListNotations.
@@ -23,3 +24,292 @@ Qed.
 
 Lemma array_shrink_ok : shrink_ok array_shrink_cond array_shrink_size.
 Proof. intros n s _. unfold array_shrink_size. lia. Qed.
+
+(* ------------------------------------------------------------------ memory helpers *)
+Section MemLemmas.
+  Variable X : Type.
+  Implicit Types l a b : list X.
+
+  Lemma set_at_app_l a b x y : set_at (a ++ y :: b) (length a) x = Some (a ++ x :: b).
+  Proof. induction a as [|z a IH]; simpl; [reflexivity | rewrite IH; reflexivity]. Qed.
+
+  Lemma set_at_length l i x l' : set_at l i x = Some l' -> length l' = length l.
+  Proof.
+    revert i l'. induction l as [|y l IH]; intros [|i] l' H; simpl in H; try discriminate.
+    - injection H as <-. reflexivity.
+    - destruct (set_at l i x) eqn:E; [|discriminate]. injection H as <-. simpl. f_equal. eauto.
+  Qed.
+
+  Lemma realloc_length junk l n : length (realloc junk l n) = n.
+  Proof.
+    unfold realloc. rewrite app_length, repeat_length, firstn_length. lia.
+  Qed.
+
+  Lemma realloc_app_ge junk a b n :
+    length a <= n -> realloc junk (a ++ b) n = a ++ realloc junk b (n - length a).
+  Proof.
+    intros H. unfold realloc. rewrite firstn_app, app_length.
+    rewrite (firstn_all2 a) by lia. rewrite <- app_assoc. do 2 f_equal. f_equal. lia.
+  Qed.
+
+  Lemma realloc_le junk l n : n <= length l -> realloc junk l n = firstn n l.
+  Proof.
+    intros H. unfold realloc. replace (n - length l) with 0 by lia. simpl. apply app_nil_r.
+  Qed.
+
+  Lemma memmove_cons x l d s n :
+    memmove (x :: l) (S d) (S s) n =
+    match memmove l d s n with Some r => Some (x :: r) | None => None end.
+  Proof.
+    unfold memmove. simpl length.
+    replace (S s + n <=? S (length l)) with (s + n <=? length l) by (simpl; reflexivity).
+    replace (S d + n <=? S (length l)) with (d + n <=? length l) by (simpl; reflexivity).
+    destruct ((s + n <=? length l) && (d + n <=? length l)); reflexivity.
+  Qed.
+
+  (* push_at: shift B up by one and store x in the gap *)
+  Lemma memmove_insert a b c d x :
+    exists l1, memmove (a ++ b ++ c :: d) (length a + 1) (length a) (length b) = Some l1 /\
+               set_at l1 (length a) x = Some (a ++ x :: b ++ d).
+  Proof.
+    induction a as [|y a IH].
+    - simpl. unfold memmove. simpl length.
+      assert (H1 : 0 + length b <=? length (b ++ c :: d) = true)
+        by (apply Nat.leb_le; rewrite app_length; simpl; lia).
+      assert (H2 : 1 + length b <=? length (b ++ c :: d) = true)
+        by (apply Nat.leb_le; rewrite app_length; simpl; lia).
+      rewrite H1, H2. simpl andb. cbv iota. eexists. split; [reflexivity|].
+      assert (E1 : firstn (length b) (b ++ c :: d) = b)
+        by (rewrite firstn_app, Nat.sub_diag, firstn_all; simpl; apply app_nil_r).
+      assert (E2 : skipn (1 + length b) (b ++ c :: d) = d).
+      { replace (1 + length b) with (length b + 1) by lia.
+        rewrite skipn_app. replace (length b + 1 - length b) with 1 by lia.
+        rewrite (skipn_all2 b) by lia. reflexivity. }
+      rewrite skipn_O, E1, E2.
+      destruct (b ++ c :: d) eqn:E; [destruct b; discriminate|]. simpl. reflexivity.
+    - destruct IH as (l1 & Hm & Hs). simpl app. simpl length.
+      replace (S (length a) + 1) with (S (length a + 1)) by lia.
+      rewrite memmove_cons, Hm. eexists. split; [reflexivity|]. simpl. rewrite Hs. reflexivity.
+  Qed.
+
+  (* pop_at: shift B down by one; the last moved unit stays behind as a stale copy *)
+  Lemma memmove_delete a b x d :
+    exists y, memmove (a ++ x :: b ++ d) (length a) (length a + 1) (length b) = Some (a ++ b ++ y :: d).
+  Proof.
+    induction a as [|z a IH].
+    - simpl. unfold memmove. simpl length.
+      assert (H1 : 1 + length b <=? S (length (b ++ d)) = true)
+        by (apply Nat.leb_le; rewrite app_length; lia).
+      assert (H2 : 0 + length b <=? S (length (b ++ d)) = true)
+        by (apply Nat.leb_le; rewrite app_length; lia).
+      rewrite H1, H2. simpl andb. cbv iota. simpl skipn at 1. simpl firstn at 1.
+      rewrite firstn_app, Nat.sub_diag, firstn_all. simpl firstn. rewrite app_nil_r.
+      simpl plus.
+      assert (exists y, skipn (length b) (x :: b ++ d) = y :: d) as [y Hy].
+      { clear. revert x. induction b as [|w b IH]; intros x; simpl.
+        - eauto.
+        - destruct (IH w) as [y Hy]. exists y. exact Hy. }
+      rewrite Hy. exists y. reflexivity.
+    - destruct IH as (y & Hm). exists y. simpl app. simpl length.
+      replace (S (length a) + 1) with (S (length a + 1)) by lia.
+      rewrite memmove_cons, Hm. reflexivity.
+  Qed.
+
+  Lemma write_all_app a ws rest :
+    length ws <= length rest ->
+    write_all (a ++ rest) (length a) ws = Some (a ++ ws ++ skipn (length ws) rest).
+  Proof.
+    revert a rest. induction ws as [|w ws IH]; intros a rest H; simpl.
+    - reflexivity.
+    - destruct rest as [|r rest]; [simpl in H; lia|].
+      rewrite set_at_app_l.
+      replace (a ++ w :: rest) with ((a ++ [w]) ++ rest) by (rewrite <- app_assoc; reflexivity).
+      replace (S (length a)) with (length (a ++ [w])) by (rewrite app_length; simpl; lia).
+      rewrite IH by (simpl in H; lia). rewrite <- app_assoc. reflexivity.
+  Qed.
+End MemLemmas.
+
+(* ------------------------------------------------------------------ generic list facts *)
+Section ListFacts.
+  Variable E : Type.
+  Variable eqb : E -> E -> bool.
+  Implicit Types l : list E.
+
+  Lemma oob_inb n i : oob n i = negb (inb n i).
+  Proof.
+    unfold oob, inb. destruct (Z.ltb_spec i 0), (Z.leb_spec 0 i), (Z.geb_spec i (Z.of_nat n)),
+      (Z.ltb_spec i (Z.of_nat n)); simpl; try reflexivity; lia.
+  Qed.
+
+  Lemma inb_pos n k : inb n (norm n k) = true ->
+    Z.to_nat (norm n k) < n /\ (norm n k = Z.of_nat (Z.to_nat (norm n k))).
+  Proof.
+    unfold inb. intros H. apply andb_prop in H as [H1 H2].
+    apply Z.leb_le in H1. apply Z.ltb_lt in H2. lia.
+  Qed.
+
+  Lemma insert_at_length i v l : i <= length l -> length (insert_at E i v l) = S (length l).
+  Proof.
+    intros H. unfold insert_at. rewrite app_length. cbn [length]. rewrite firstn_length, skipn_length. lia.
+  Qed.
+
+  Lemma remove_at_length i l : i < length l -> length (remove_at E i l) = length l - 1.
+  Proof.
+    intros H. unfold remove_at. rewrite app_length, firstn_length, skipn_length. lia.
+  Qed.
+
+  Lemma replace_at_length i v l : i < length l -> length (replace_at E i v l) = length l.
+  Proof.
+    intros H. unfold replace_at. rewrite app_length. cbn [length]. rewrite firstn_length, skipn_length. lia.
+  Qed.
+
+  Lemma removelast_length l : length (removelast l) = length l - 1.
+  Proof.
+    destruct l as [|x l] using rev_ind; [reflexivity|].
+    rewrite removelast_last, app_length. simpl. lia.
+  Qed.
+
+  (* rem: the first element equal to the argument *)
+  Lemma find_first_spec l i v :
+    match find_first E eqb l i v with
+    | Some p => i <= p /\ p - i < length l /\
+                remove_first E eqb v l = remove_at E (p - i) l /\
+                existsb (fun x => eqb x v) l = true /\
+                (exists x, nth_error l (p - i) = Some x /\ eqb x v = true) /\
+                (forall j y, j < p - i -> nth_error l j = Some y -> eqb y v = false)
+    | None => existsb (fun x => eqb x v) l = false
+    end.
+  Proof.
+    revert i. induction l as [|x l IH]; intros i; simpl; [reflexivity|].
+    destruct (eqb x v) eqn:Ex.
+    - rewrite Nat.sub_diag. simpl. repeat split; try lia; eauto.
+    - specialize (IH (S i)). destruct (find_first E eqb l (S i) v) as [p|]; [|exact IH].
+      destruct IH as (H1 & H2 & H3 & H4 & (y & H5 & H6) & H7).
+      replace (p - i) with (S (p - S i)) by lia. simpl.
+      repeat split; try lia.
+      + unfold remove_at in *. simpl. rewrite H3. reflexivity.
+      + exact H4.
+      + exists y. split; assumption.
+      + intros [|j] z Hj Hz; simpl in Hz.
+        * injection Hz as <-. exact Ex.
+        * apply (H7 j z); [lia | exact Hz].
+  Qed.
+End ListFacts.
+
+(* ------------------------------------------------------------------ List refines the sequence *)
+Section ListRefines.
+  Variable E : Type.
+  Variable eqb ltb same : E -> E -> bool.
+  Variable zero : E.
+
+  Notation l_step := (l_step E eqb zero).
+  Notation spec_step := (spec_step E eqb ltb zero).
+  Notation spec_ok := (spec_ok E eqb ltb zero).
+  Notation in_range := (in_range E eqb).
+
+  Ltac lsimp := cbn [SeqModels.l_step fst snd lelems lnitems].
+
+  Lemma walk_spec (xs : list E) i pos : i < length xs -> walk E xs i pos = AtPos (pos + i).
+  Proof.
+    revert i pos. induction xs as [|x xs IH]; intros i pos H; simpl in *; [lia|].
+    destruct i as [|i]; [f_equal; lia|]. rewrite IH by lia. f_equal. lia.
+  Qed.
+
+  (* List_At reaches the addressed position from either end *)
+  Lemma l_at_spec (l : llist E) k :
+    l_inv E l -> inb (lnitems E l) (norm (lnitems E l) k) = true ->
+    l_at E l k = AtPos (Z.to_nat (norm (lnitems E l) k)).
+  Proof.
+    intros Hinv Hin. unfold l_at. rewrite oob_inb, Hin. simpl negb. cbv iota.
+    apply inb_pos in Hin as [Hlt Heq]. red in Hinv.
+    set (n := lnitems E l) in *. set (p := Z.to_nat (norm n k)) in *.
+    destruct (Z.leb_spec (norm n k) (Z.of_nat (n / 2))).
+    - unfold walk_next. rewrite walk_spec by lia. reflexivity.
+    - unfold walk_prev. rewrite walk_spec by (rewrite rev_length; lia).
+      f_equal. lia.
+  Qed.
+
+  Lemma l_values_from_spec (l : llist E) cnt i :
+    l_inv E l -> i + cnt = lnitems E l ->
+    l_values_from E l cnt i = Some (skipn i (lelems E l)).
+  Proof.
+    intros Hinv. revert i. induction cnt as [|cnt IH]; intros i H; simpl.
+    - rewrite skipn_all2 by (red in Hinv; lia). reflexivity.
+    - assert (Hin : inb (lnitems E l) (norm (lnitems E l) (Z.of_nat i)) = true).
+      { unfold inb, norm. destruct (Z.ltb_spec (Z.of_nat i) 0); [lia|].
+        apply andb_true_intro. split; [apply Z.leb_le | apply Z.ltb_lt]; lia. }
+      rewrite (l_at_spec l _ Hinv Hin).
+      assert (Hp : Z.to_nat (norm (lnitems E l) (Z.of_nat i)) = i).
+      { unfold norm. destruct (Z.ltb_spec (Z.of_nat i) 0); lia. }
+      rewrite Hp. rewrite IH by lia.
+      red in Hinv.
+      destruct (nth_error (lelems E l) i) as [v|] eqn:Hn.
+      + f_equal. clear - Hn. revert i Hn. induction (lelems E l) as [|x xs IHx]; intros [|i] Hn; simpl in *; try discriminate.
+        * injection Hn as ->. reflexivity.
+        * apply IHx. exact Hn.
+      + apply nth_error_None in Hn. lia.
+  Qed.
+
+  Theorem l_step_refines (l : llist E) (o : sop E) :
+    l_inv E l -> in_range KList (l_abs E l) o = true ->
+    l_inv E (fst (l_step l o)) /\
+    spec_ok KList (l_abs E l) o (l_abs E (fst (l_step l o))) (snd (l_step l o)).
+  Proof.
+    intros Hinv Hin. pose proof Hinv as Hn. red in Hn.
+    unfold l_abs in *. destruct l as [xs n]. simpl in Hn. subst n.
+    cbn [lelems lnitems] in *.
+    destruct o; try (simpl in Hin; discriminate);
+      unfold spec_ok; unfold SeqModels.spec_step; rewrite Hin; simpl negb; cbv iota;
+      simpl in Hin; simpl lelems; simpl lnitems.
+    - (* push *) simpl. split; [red; simpl; rewrite app_length; simpl; lia | reflexivity].
+    - (* pop *)
+      lsimp. destruct (Nat.eqb_spec (length xs) 0) as [H0|H0]; [discriminate|].
+      destruct xs as [|x xs]; [simpl in H0; lia|]. lsimp. split; [|reflexivity].
+      red. lsimp. rewrite removelast_length. reflexivity.
+    - (* push_at *)
+      simpl. unfold push_at_pos in *. destruct (Z.eqb_spec k 0) as [->|Hk].
+      + simpl. split; [red; reflexivity | reflexivity].
+      + destruct (inb (length xs) (norm (length xs) k)) eqn:Hi; [|discriminate].
+        rewrite (l_at_spec (mkL E xs (length xs)) k Hinv Hi). simpl.
+        apply inb_pos in Hi as [Hlt _]. split; [|reflexivity].
+        red. simpl. rewrite insert_at_length by lia. reflexivity.
+    - (* pop_at *)
+      simpl. rewrite (l_at_spec (mkL E xs (length xs)) k Hinv Hin). simpl.
+      apply inb_pos in Hin as [Hlt _]. split; [|reflexivity].
+      red. simpl. rewrite remove_at_length by lia. reflexivity.
+    - (* set *)
+      simpl. rewrite (l_at_spec (mkL E xs (length xs)) k Hinv Hin). simpl.
+      apply inb_pos in Hin as [Hlt _]. split; [|reflexivity].
+      red. simpl. rewrite replace_at_length by lia. reflexivity.
+    - (* get *)
+      simpl. rewrite (l_at_spec (mkL E xs (length xs)) k Hinv Hin). simpl.
+      apply inb_pos in Hin as [Hlt _].
+      destruct (nth_error xs (Z.to_nat (norm (length xs) k))) eqn:Hn; simpl.
+      + split; [exact Hinv | reflexivity].
+      + apply nth_error_None in Hn. lia.
+    - (* mem *) simpl. split; [exact Hinv | reflexivity].
+    - (* rem *)
+      simpl. pose proof (find_first_spec E eqb xs 0 v) as Hf.
+      destruct (find_first E eqb xs 0 v) as [p|]; [|congruence].
+      destruct Hf as (_ & H2 & H3 & _). rewrite Nat.sub_0_r in *. simpl. split.
+      * red. simpl. rewrite remove_at_length by lia. reflexivity.
+      * rewrite H3. reflexivity.
+    - (* concat *) simpl. split; [red; simpl; rewrite app_length; reflexivity | reflexivity].
+    - (* append *) simpl. split; [red; simpl; rewrite app_length; simpl; lia | reflexivity].
+    - (* resize *)
+      simpl. destruct (Nat.eqb_spec n 0) as [->|Hn0].
+      + simpl. split; [red; reflexivity | reflexivity].
+      + destruct (Nat.ltb_spec n (length xs)) as [Hlt|Hge].
+        * destruct (Nat.ltb_spec (length xs) (length xs - n)); [lia|]. simpl.
+          replace (length xs - (length xs - n)) with n by lia.
+          replace (n - length xs) with 0 by lia. simpl. rewrite app_nil_r.
+          split; [red; simpl; rewrite firstn_length; lia | reflexivity].
+        * simpl. rewrite firstn_all2 by lia.
+          split; [red; simpl; rewrite app_length, repeat_length; lia | reflexivity].
+    - (* assign *) simpl. split; [red; reflexivity | reflexivity].
+    - (* copy *)
+      lsimp. unfold l_values. lsimp.
+      rewrite (l_values_from_spec (mkL E xs (length xs)) (length xs) 0 Hinv) by reflexivity.
+      simpl. split; [red; reflexivity | reflexivity].
+  Qed.
+End ListRefines.
